@@ -23,6 +23,12 @@ type IndexCfg struct {
 	Throughput bool   `json:"throughput,omitempty"`
 }
 
+// IdxChange is one entry of a multi-change UpdateTable: create the index or delete the named one.
+type IdxChange struct {
+	Create *IndexCfg `json:"create,omitempty"`
+	Delete string    `json:"delete,omitempty"`
+}
+
 // TableCfg describes a table to create.
 type TableCfg struct {
 	Hash       string     `json:"hash"`
@@ -51,8 +57,9 @@ type Op struct {
 	Table string `json:"table,omitempty"`
 	Index string `json:"index,omitempty"`
 
-	Cfg    *TableCfg `json:"cfg,omitempty"`    // CreateTable
-	IdxCfg *IndexCfg `json:"idxCfg,omitempty"` // UpdateTable create GSI / AddIndex
+	Cfg     *TableCfg   `json:"cfg,omitempty"`     // CreateTable
+	IdxCfg  *IndexCfg   `json:"idxCfg,omitempty"`  // UpdateTable create GSI / AddIndex
+	Changes []IdxChange `json:"changes,omitempty"` // UpdateTable with several index changes
 
 	Item val.Item `json:"item,omitempty"` // Put
 	Key  val.Item `json:"key,omitempty"`  // Get/Upd/Del
@@ -89,6 +96,7 @@ const (
 	KDescribe   = "DescribeTable"
 	KCreateGSI  = "UpdateTable+GSI"
 	KDeleteGSI  = "UpdateTable-GSI"
+	KUpdateTbl  = "UpdateTable*" // several index changes in one request (Changes)
 	KAddIndex   = "AddIndex"
 	KClear      = "ClearTable"
 	KPut        = "PutItem"
@@ -147,6 +155,10 @@ func (o Op) String() string {
 	}
 	if o.IdxCfg != nil {
 		b, _ := json.Marshal(o.IdxCfg)
+		p = append(p, string(b))
+	}
+	if o.Changes != nil {
+		b, _ := json.Marshal(o.Changes)
 		p = append(p, string(b))
 	}
 	if o.Item != nil {
